@@ -283,6 +283,38 @@ def _range_sense(test, var_pred):
     return 0
 
 
+def _bound_facts(tests, var_pred):
+    """{'lo', 'hi'} facts about var established by the atomic test events `tests` ([(test, polarity)]): 'lo' -- var is bounded from
+    below (x <= var holds), 'hi' -- from above.  Only the last outcome of each test node counts."""
+    last = {}
+    for t, pol in tests:
+        while isinstance(t, ast.UnaryOp) and isinstance(t.op, ast.Not):
+            t, pol = t.operand, not pol
+        if not (isinstance(t, ast.Compare) and len(t.ops) == 1 and isinstance(t.ops[0], (ast.Lt, ast.LtE, ast.Gt, ast.GtE))):
+            continue
+        a, b, op = t.left, t.comparators[0], t.ops[0]
+        if var_pred(a) and not var_pred(b):
+            kind = "hi" if isinstance(op, (ast.Lt, ast.LtE)) else "lo"
+        elif var_pred(b) and not var_pred(a):
+            kind = "lo" if isinstance(op, (ast.Lt, ast.LtE)) else "hi"
+        else:
+            continue
+        last[id(t)] = kind if pol else ("lo" if kind == "hi" else "hi")
+    return set(last.values())
+
+
+def _has_window(fn, var_pred):
+    """the function compares var against a lower and an upper limit somewhere"""
+    n = 0
+    for t in walk_no_nested(fn):
+        if isinstance(t, ast.Compare):
+            items = [t.left] + list(t.comparators)
+            for i, op in enumerate(t.ops):
+                if isinstance(op, (ast.Lt, ast.LtE, ast.Gt, ast.GtE)) and (var_pred(items[i]) != var_pred(items[i + 1])):
+                    n += 1
+    return n >= 2
+
+
 def _mentions(e, names):
     return any(isinstance(n, ast.Name) and n.id in names for n in ast.walk(e))
 
@@ -588,8 +620,8 @@ def run(ctx):
         vco_pred = lambda e: isinstance(e, ast.Name) and e.id == "vco_freq"
         pfd_pred = lambda e: (isinstance(e, ast.Name) and e.id == "pfd_freq") or \
             (isinstance(e, ast.BinOp) and isinstance(e.op, ast.Div) and norm(e.left) == "self.clkin_freq")
-        has_vco_test = any(_range_sense(t.test, vco_pred) != 0 for t in walk_no_nested(fn) if isinstance(t, ast.If))
-        has_pfd_test = any(_range_sense(t.test, pfd_pred) != 0 for t in walk_no_nested(fn) if isinstance(t, ast.If))
+        has_vco_test = _has_window(fn, vco_pred)
+        has_pfd_test = _has_window(fn, pfd_pred)
         ctx.ob("G3", D + rel, f"{cname}.compute_config", "VCO window test:present", has_vco_test,
                "no two-sided window test on vco_freq", fn)
         # "collector" searches (Intel, Gowin) record candidates and choose the best afterwards: the obligations are
@@ -662,12 +694,10 @@ def run(ctx):
                         continue
                     ncommit += 1
                     pre = p.tests_before(i)
-                    vs = [(s, pol) for s, pol in [(_range_sense(t, vco_pred), pol) for t, pol in pre] if s != 0]
-                    if not vs or not ((vs[-1][0] > 0) == vs[-1][1]):
+                    if _bound_facts(pre, vco_pred) != {"lo", "hi"}:
                         bad = (p, "a candidate is recorded without the VCO window test passed in range")
                     if has_pfd_test:
-                        ps = [(s, pol) for s, pol in [(_range_sense(t, pfd_pred), pol) for t, pol in pre] if s != 0]
-                        if not ps or not ((ps[-1][0] > 0) == ps[-1][1]):
+                        if _bound_facts(pre, pfd_pred) != {"lo", "hi"}:
                             bad = (p, "a candidate is recorded without the PFD window test passed in range")
                     entered = any(x[0] == "loop" and x[2] == "enter" and isinstance(x[1], ast.For) and
                                   "self.clkouts" in norm(x[1].iter) for x in p.ev[:i])
@@ -689,15 +719,11 @@ def run(ctx):
             continue
         bad = None
         for p in rets:
-            vs = [(_range_sense(t, vco_pred), pol) for t, pol in p.tests_before(len(p.ev))]
-            vs = [(s, pol) for s, pol in vs if s != 0]
-            if not vs or not ((vs[-1][0] > 0) == vs[-1][1]):
+            if _bound_facts(p.tests_before(len(p.ev)), vco_pred) != {"lo", "hi"}:
                 bad = (p, "the VCO window test is not passed in range")
                 break
             if has_pfd_test:
-                ps = [(_range_sense(t, pfd_pred), pol) for t, pol in p.tests_before(len(p.ev))]
-                ps = [(s, pol) for s, pol in ps if s != 0]
-                if not ps or not ((ps[-1][0] > 0) == ps[-1][1]):
+                if _bound_facts(p.tests_before(len(p.ev)), pfd_pred) != {"lo", "hi"}:
                     bad = (p, "the PFD window test is not passed in range")
                     break
             entered = any(e[0] == "loop" and e[2] == "enter" and isinstance(e[1], ast.For) and "self.clkouts" in norm(e[1].iter)
